@@ -118,10 +118,27 @@ int main(void)
     static char line[8192];
     double d27[64]; cgsize_t conn8[8] = {1, 2, 3, 4, 5, 6, 7, 8};
     for (int i = 0; i < 64; i++) d27[i] = i;
+    /* C11_OTHER=<path>:<adf|hdf5> : a second file is created, kept open read-only for the whole run and READ
+       (cg_nbases) before every command: whatever the library's "current file" is after a call on another file,
+       navigation and node-context calls on the file under test must behave as if that call had not happened */
+    int ofn = 0;
+    {
+        const char *oth = getenv("C11_OTHER");
+        if (oth && strchr(oth, ':')) {
+            char op[1024]; int ob, k = (int)(strrchr(oth, ':') - oth);
+            snprintf(op, sizeof op, "%.*s", k, oth);
+            remove(op);
+            if (cg_set_file_type(!strcmp(oth + k + 1, "hdf5") ? CG_FILE_HDF5 : CG_FILE_ADF) || cg_open(op, CG_MODE_WRITE, &ofn) ||
+                cg_base_write(ofn, "OtherBase", 3, 3, &ob) || cg_close(ofn) || cg_open(op, CG_MODE_READ, &ofn)) {
+                fprintf(stderr, "other file: %s\n", cg_get_error()); return 7;
+            }
+        }
+    }
     while (fgets(line, sizeof line, stdin)) {
         if (!split(line)) continue;
         const char *c = W[0];
         int rc = -7, out = 0;
+        if (ofn > 0 && strcmp(c, "ft") && strcmp(c, "open")) { int onb; cg_nbases(ofn, &onb); }
 #define A(k) atoi(W[k])
         if (!strcmp(c, "ft")) { rc = cg_set_file_type(!strcmp(W[1], "hdf5") ? CG_FILE_HDF5 : CG_FILE_ADF); printf("c %d\n", rc); }
         else if (!strcmp(c, "open")) {
